@@ -11,11 +11,14 @@ import (
 )
 
 type c10Violation struct {
-	Class   string                 `json:"class"`
-	Replay  string                 `json:"replay"`
-	Witness map[string]interface{} `json:"witness"`
-	Site    string                 `json:"site"`
-	Seed    uint64                 `json:"session_seed"`
+	Class     string                 `json:"class"`
+	Replay    string                 `json:"replay"`
+	Witness   map[string]interface{} `json:"witness"`
+	Site      string                 `json:"site"`
+	Seed      uint64                 `json:"session_seed"`
+	Worker    int                    `json:"worker"`
+	Index     int                    `json:"session_index"`
+	Canonical bool                   `json:"canonical"`
 }
 
 type c10Stats struct {
@@ -150,7 +153,9 @@ func checkC10(o options) int {
 	isoFile := filepath.Join(scratch, "c10-iso-keys.json")
 	cres := runProcs(canonProcs, func(i int) (string, []string, []string, string) {
 		of := filepath.Join(scratch, fmt.Sprintf("c10-canon%d.json", i))
-		args := []string{"c10", "--canonical", "--seed", fmt.Sprint(o.seed), "--worker", "0", "--sessions", fmt.Sprint(canonSessions), "--out", of, "--replays", rdir, "--sources", o.sources, "--known", knownArg(known)}
+		crdir := filepath.Join(rdir, fmt.Sprintf("canon%d", i)) // same worker index and seeds as exploration worker 0: keep the files apart
+		os.MkdirAll(crdir, 0o755)
+		args := []string{"c10", "--canonical", "--seed", fmt.Sprint(o.seed), "--worker", "0", "--sessions", fmt.Sprint(canonSessions), "--out", of, "--replays", crdir, "--sources", o.sources, "--known", knownArg(known)}
 		if i == 0 {
 			args = append(args, "--isolate-out", isoFile, "--isolate-cap", fmt.Sprint(isoCap))
 		}
@@ -260,6 +265,7 @@ func checkC10(o options) int {
 		class  string
 		replay string
 		what   string
+		v      *c10Violation // worker-found: where in which worker's history it happened
 	}
 	var finals []finalV
 	seenClass := map[string]bool{}
@@ -269,7 +275,8 @@ func checkC10(o options) int {
 				continue
 			}
 			seenClass[v.Class] = true
-			finals = append(finals, finalV{v.Class, v.Replay, fmt.Sprint(v.Witness["first_diff_line"])})
+			vv := v
+			finals = append(finals, finalV{v.Class, v.Replay, fmt.Sprint(v.Witness["first_diff_line"]), &vv})
 		}
 	}
 	// history dependence found by the isolated oracle: one witness per rule
@@ -282,10 +289,15 @@ func checkC10(o options) int {
 		mf := filepath.Join(scratch, fmt.Sprintf("iso-mismatch%d.json", i))
 		writeJSONFile(mf, m)
 		rf := filepath.Join(rdir, fmt.Sprintf("C10-history-%d.json", i))
-		if out, err := run(scratch, nil, inst.bin, "c10-history-witness", "--in", mf, "--out", rf); err != nil {
+		out, err := run(scratch, nil, inst.bin, "c10-history-witness", "--in", mf, "--out", rf, "--seed", fmt.Sprint(o.seed), "--sources", o.sources)
+		if c := escalatedClass(out); c != "" {
+			class = c
+			seenClass[class] = true
+		}
+		if err != nil {
 			die(2, "C10: a key evaluated alone in a fresh process differs from its in-session result, but the witness did not reproduce when replayed (simulator or harness nondeterminism?):\n%s", tail(out, 10))
 		}
-		finals = append(finals, finalV{class, rf, "result depends on process history (isolated fresh-process oracle), rule " + m.Rule})
+		finals = append(finals, finalV{class, rf, "result depends on process history (isolated fresh-process oracle), rule " + m.Rule, nil})
 	}
 	// pristine disagreement among real runs: a violation whatever caused it
 	realMulti, translationChecked := 0, 0
@@ -312,7 +324,7 @@ func checkC10(o options) int {
 			writeJSONFile(path, map[string]interface{}{"format": "verif-c10-real/1", "property": "C10", "class": class, "replayable": false,
 				"note":    "two executions of the UNINSTRUMENTED library on the same texts under the real runtime produced different results",
 				"witness": e, "verif_seed": o.seed})
-			finals = append(finals, finalV{class, path, "real-runtime disagreement on " + e.Key})
+			finals = append(finals, finalV{class, path, "real-runtime disagreement on " + e.Key, nil})
 			continue
 		}
 		// translation check: pristine result == instrumented canonical result
@@ -333,7 +345,7 @@ func checkC10(o options) int {
 		writeJSONFile(path, map[string]interface{}{"format": "verif-c10-process/1", "property": "C10", "class": class, "replayable": false,
 			"note": "two processes with the map-order seam canonical produced different results for the same texts: a nondeterminism source the seam does not own",
 			"key":  u.key, "hash_a": u.a, "hash_b": u.b, "census": census, "verif_seed": o.seed})
-		finals = append(finals, finalV{class, path, "cross-process disagreement with canonical seam"})
+		finals = append(finals, finalV{class, path, "cross-process disagreement with canonical seam", nil})
 	}
 
 	// ---- confirm replays, attach real-runtime confirmation, publish ----
@@ -341,7 +353,57 @@ func checkC10(o options) int {
 	exit := 0
 	var violationLines, knownLines []string
 	unknownCount := 0
+	seenFinal := map[string]bool{}
 	for _, f := range finals {
+		if strings.Contains(f.class, "(unreproduced)") && f.v != nil {
+			// the worker saw two different results for the same texts in two of its
+			// sessions but could not re-create it from those two alone: try its
+			// whole history
+			rf := filepath.Join(rdir, "esc-"+filepath.Base(f.replay))
+			args := []string{"c10-escalate", "--seed", fmt.Sprint(o.seed), "--worker", fmt.Sprint(f.v.Worker), "--index", fmt.Sprint(f.v.Index), "--sources", o.sources, "--out", rf}
+			if f.v.Canonical {
+				args = append(args, "--canonical")
+			}
+			eout, eerr := run(scratch, nil, inst.bin, args...)
+			if c := escalatedClass(eout); eerr == nil && c != "" {
+				f.class, f.replay = c, rf
+			}
+			if seenFinal[f.class] {
+				continue
+			}
+			seenFinal[f.class] = true
+		} else if strings.Contains(f.class, "disagree:") && f.v != nil {
+			// replay in a fresh process; if the session alone does not reproduce, the
+			// difference depends on what the worker did in earlier sessions: rebuild
+			// that history and reduce it
+			out, err := run(scratch, nil, inst.bin, "c10-replay", f.replay)
+			if !(err != nil && strings.Contains(out, "REPRODUCED class=")) {
+				rf := filepath.Join(rdir, "esc-"+filepath.Base(f.replay))
+				args := []string{"c10-escalate", "--seed", fmt.Sprint(o.seed), "--worker", fmt.Sprint(f.v.Worker), "--index", fmt.Sprint(f.v.Index), "--sources", o.sources, "--out", rf}
+				if f.v.Canonical {
+					args = append(args, "--canonical")
+				}
+				eout, eerr := run(scratch, nil, inst.bin, args...)
+				c := escalatedClass(eout)
+				if eerr != nil || c == "" {
+					die(2, "C10: worker %d reported %s in its session %d, but neither that session alone nor the worker's whole history reproduces it in a fresh process (simulator or harness nondeterminism?):\n%s", f.v.Worker, f.class, f.v.Index, tail(eout, 10))
+				}
+				logf("class %s needed the worker's earlier sessions: %s", f.class, strings.TrimSpace(tail(eout, 1)))
+				f.class, f.replay = c, rf
+			} else if !strings.Contains(f.class, "site=history") {
+				// found under perturbed map orders: do they matter at all?
+				rf := filepath.Join(rdir, "canon-"+filepath.Base(f.replay))
+				cout, cerr := run(scratch, nil, inst.bin, "c10-canon-min", "--in", f.replay, "--out", rf)
+				if c := escalatedClass(cout); cerr == nil && c != "" {
+					logf("class %s reproduces with canonical map orders: %s", f.class, strings.TrimSpace(tail(cout, 1)))
+					f.class, f.replay = c, rf
+				}
+			}
+			if seenFinal[f.class] {
+				continue
+			}
+			seenFinal[f.class] = true
+		}
 		if kf := isKnown(known, f.class); kf != nil {
 			knownLines = append(knownLines, fmt.Sprintf("KNOWN-FINDING: property=C10 %s (%s)", kf.What, f.class))
 			continue
@@ -350,9 +412,9 @@ func checkC10(o options) int {
 		if unknownCount > 5 {
 			continue
 		}
-		dst := filepath.Join(outDir, filepath.Base(f.replay))
+		dst := filepath.Join(outDir, fmt.Sprintf("C10-seed%d-%d-%s", o.seed, unknownCount, strings.TrimPrefix(strings.TrimPrefix(filepath.Base(f.replay), "esc-"), "C10-")))
 		if strings.Contains(f.class, "disagree:") || strings.Contains(f.class, "disagree-history|") {
-			// replay in a fresh process: must reproduce the same class
+			// fresh-process confirmation of exactly the file that is published
 			out, err := run(scratch, nil, inst.bin, "c10-replay", f.replay)
 			reproduced := err != nil && strings.Contains(out, "REPRODUCED class="+f.class)
 			if !reproduced && !strings.Contains(f.class, "(unreproduced)") {
@@ -360,11 +422,12 @@ func checkC10(o options) int {
 			}
 			// confirmation under the real runtime (evidence, not a precondition)
 			conf := "n/a (history dependence, not map order)"
-			if strings.Contains(f.class, "disagree:") {
+			if strings.Contains(f.class, "disagree:") && !strings.Contains(f.class, "site=history") {
 				conf = confirmReal(prist, f.replay)
 			}
 			var rp map[string]interface{}
 			if err := readJSONGeneric(f.replay, &rp); err == nil {
+				rp["class"] = f.class
 				rp["confirmed_on_real_runtime"] = conf
 				rp["repo_tree"] = repoTree()
 				rp["verif_seed"] = o.seed
@@ -420,6 +483,18 @@ func checkC10(o options) int {
 		fmt.Printf("C10 ok: %v sessions, %v keyed observations compared, %v effective sessions, 0 unlisted violations\n", cov["evaluations"], cov["observations_compared"], cov["effective_sessions"])
 	}
 	return exit
+}
+
+func escalatedClass(out string) string {
+	i := strings.LastIndex(out, "escalated witness: class=")
+	if i < 0 {
+		return ""
+	}
+	l := out[i+len("escalated witness: class="):]
+	if j := strings.Index(l, " sessions="); j >= 0 {
+		return l[:j]
+	}
+	return ""
 }
 
 func asList(v interface{}) []interface{} {
